@@ -2,4 +2,5 @@ pub mod costmodel;
 pub mod optests;
 pub mod refhash;
 pub mod refserde;
+pub mod refvm;
 pub mod unknownop;
